@@ -236,6 +236,9 @@ impl Emit<'_> {
         writeln!(self.out, "grammar {gid} {kind}").unwrap();
         writeln!(self.out, "src {src}").unwrap();
         writeln!(self.out, "gjson {}", serde_json::to_string(&g).unwrap()).unwrap();
+        // Lean's JSON objects are sorted maps: pass the rule order (the first rule is the start rule) separately
+        let order: Vec<String> = g["rules"].as_object().unwrap().keys().map(|k| hex(k.as_bytes())).collect();
+        writeln!(self.out, "ruleorder {}", order.join(" ")).unwrap();
         if let Some(t) = optable {
             writeln!(self.out, "optable {}", t.encode()).unwrap();
         }
